@@ -298,7 +298,8 @@ impl Parser {
                 let output_type = if output_type.is_class_self() {
                     lhs_ty_cow
                 } else {
-                    output_type.clone()
+                    // the arguments are checked: a generic in the signature (`map`) now stands for a type
+                    Cow::Owned(output_type.with_bound_generics())
                 };
 
                 Ok(DotLookup {
